@@ -44,7 +44,7 @@ PROPS = {
         stubs=['utils::push_column -> k_kcommon::model_push_column_l{1,2,3} inside the token-rendering harnesses (the real push_column is decided against the same closed form by c14_*_push_column_*)'],
         bounds={'push_column': 'all columns 0..16383 quick (0..65535 thorough), one query per letter count',
                 'tokens': 'one token sequence per harness (concrete token ids, concrete representative rows {0,4,8,9,98,65534,65535 | 0,9,1048575}), columns symbolic within a letter-count class, relative bits / sheet index / XTI contents / literal bytes symbolic'},
-        outside=['xlsx/ods formula text (XML)', 'formula cell positions (inline in zip/XML-bound readers)', 'string literals (PtgStr: encoding_rs)', 'PtgNum (float formatting)', 'operator/function composition in the quick tier (String::split_off/insert/write! exceed 20 GB; attempted in thorough)', 'rows other than the representatives'],
+        outside=['xlsx/ods formula text (XML)', 'formula cell positions (inline in zip/XML-bound readers)', 'string literals (PtgStr: encoding_rs)', 'PtgNum (float formatting)', 'operator / function composition (harnesses c14_x_xls_*: String::split_off/insert/write! on the operand stack exceed 20 GB; kept in the harness file, not admitted to any tier)', 'rows other than the representatives'],
         assumptions=[],
     ),
     'C01': dict(
@@ -164,11 +164,11 @@ PROPS = {
         assumptions=[],
     ),
     'C15': dict(
-        level_text='Bounded model checking of the real shared-formula text rewriter (replace_cell_names -> offset_cell_name -> coordinate_to_name / column_number_to_name / get_row_column) on master-formula templates for every member offset in 0..=2 x 0..=2 (quick: a single relative reference with both / one offset dimension symbolic and a fully absolute reference; thorough attempts the larger templates - two references, area in a function call, quoted text, mixed references, function name with digits, sheet-qualified reference - which exceed 12 GB in the quick configuration), against the rule stated by the property; plus column_number_to_name == bijective base-26 and its inverse for every column of the sheet.',
+        level_text='Bounded model checking of the real shared-formula text rewriter (replace_cell_names -> offset_cell_name -> coordinate_to_name / column_number_to_name / get_row_column) on master-formula templates for every member offset in 0..=2 x 0..=2 (admitted: a single relative reference with both / one offset dimension symbolic, and a reference followed by a trailing name; the larger templates - two references, area in a function call, quoted text, absolute and mixed references, function name with digits, sheet-qualified reference - exceed 12-20 GB and are kept as c15_x_* harnesses that no tier runs), against the rule stated by the property; plus column_number_to_name == bijective base-26 and its inverse for every column of the sheet.',
         hosts={'src/xlsx/mod.rs': ['c15_xlsx.rs']},
         functions=['xlsx::replace_cell_names', 'xlsx::offset_cell_name', 'xlsx::coordinate_to_name', 'xlsx::column_number_to_name', 'xlsx::get_row_column'],
         bounds={'templates': 'quick: "B3", "$B$3"; thorough: 7 more', 'offsets': 'dr, dc symbolic in 0..=2', 'column names': 'all columns 0..16383 by letter count, and rejection of every column >= 16384'},
-        outside=['the offset map built from the ref attribute and the group shapes (inline in XlsxCellReader::next_formula, XML-bound)', 'other templates / larger offsets', 'negative offsets'],
+        outside=['templates beyond the two admitted ones (c15_x_*)', 'the offset map built from the ref attribute and the group shapes (inline in XlsxCellReader::next_formula, XML-bound)', 'other templates / larger offsets', 'negative offsets'],
         assumptions=[],
     ),
     'C06': dict(
